@@ -24,13 +24,13 @@ export function* generate({ tier, seed }) {
     const out = { decls: [], ops: [] };
     const expr = encodeMap(rng, M, rng.int(4), out);
     const order = rng.pick(['before', 'before', 'after', 'mixed']);
-    const local = rng.bool(0.15);
+    const local = rng.bool(0.3) ? rng.pick(['fnDecl', 'arrow', 'fnExpr', 'iife', 'objMethod', 'classMethod', 'afterReturnless']) : false;
     const fnForm = rng.pick(['arrow', 'arrow', 'function', 'arrowDestructure']);
     const setup = fnForm === 'arrow' ? `(props: ${expr}) => () => null` : fnForm === 'function' ? `function (props: ${expr}) { return () => null; }` : `({ ...rest }: ${expr}) => () => null`;
     const src = assembleModule(rng, { decls: out.decls, call: `defineComponent(${setup})`, order, local });
     yield {
       gid: `C16-${i}`, src, syntax: 'tsx', spec: { expected: M.map((m) => ({ key: m.key, required: !m.optional, member: m.member })) },
-      feature: `${[...new Set(out.ops)].sort().join('+')}|n=${M.length}|${order}|${local ? 'local' : 'module'}|${fnForm}|${[...new Set(M.map((m) => m.member + (m.optional ? '?' : '')))].sort().join(',')}`,
+      feature: `${[...new Set(out.ops)].sort().join('+')}|n=${M.length}|${order}|${local || 'module'}|${fnForm}|${[...new Set(M.map((m) => m.member + (m.optional ? '?' : '')))].sort().join(',')}`,
       variants: [{ vid: 'v0', options: { resolveType: true, optimize: rng.bool() } }],
     };
   }
